@@ -126,6 +126,15 @@ class Trace:
         self.input_style = 0
 
 
+def _fun_via_args(x, ctx):
+    """ONE callable for every run of the process: what it computes is decided by the context the caller passes through `args`."""
+    return ctx["fun"](x)
+
+
+def _jac_via_args(x, ctx):
+    return ctx["jac"](x)
+
+
 def build_kwargs(problem, cfg, trace, hooks=None, checkpoint=None, x0=None):
     """Translate a JSON-able configuration into minimize_lbfgsb keyword arguments whose
     callables record into ``trace``.
@@ -226,7 +235,8 @@ def build_kwargs(problem, cfg, trace, hooks=None, checkpoint=None, x0=None):
     kw["bounds"] = hooks["bounds_obj"] if "bounds_obj" in hooks else P.bounds.copy()
     # Value-preserving variety in how the caller writes its inputs (chosen from the problem's seed, so that every run of one problem
     # uses the same style): the box as a list of (low, high) tuples with None for "no bound", the start as a non-contiguous view of a
-    # larger work array, the start in extended precision, the box as a Fortran-ordered array. None of this changes a value.
+    # larger work array, the start in extended precision, the box as a Fortran-ordered array, or (style 1) one objective / gradient
+    # function shared by every run of the process with the problem's data passed through `args`. None of this changes a value.
     style = cfg.get("input_style", int(P.spec.get("seed", 0)) % 7 if isinstance(P.spec.get("seed", 0), (int, np.integer)) else 0)
     if cfg.get("plain_inputs") or "bounds_obj" in hooks or cfg.get("x0_same_object") or cfg.get("x0_dtype") or checkpoint is not None:
         style = 0
@@ -340,6 +350,13 @@ def build_kwargs(problem, cfg, trace, hooks=None, checkpoint=None, x0=None):
         kw["update_fun_def"] = hooks["ufd"]
     if checkpoint is not None:
         kw["checkpoint"] = checkpoint
+    if cfg.get("via_args") or (trace.input_style == 1 and cfg.get("via_args") is not False):
+        # the user's code base has one objective / gradient function for all its problems; the data of the problem at hand travel in `args`
+        ctx = {"fun": kw["fun"], "jac": jac}
+        kw["fun"] = _fun_via_args
+        if callable(kw["jac"]):
+            kw["jac"] = _jac_via_args
+        kw["args"] = (ctx,)
     return kw
 
 
